@@ -355,4 +355,44 @@ theorem C09_refines_reference (es : List Ev) (hok : okRun {} es = true) (c : Nat
   refine ⟨a1, ?_⟩
   rw [r3]; exact a2
 
+open Mqtt.Proofs.BrokerRefine (okRun specRun okEv liveSess) in
+/-- **The will of a connection that is taken over** (MQTT-3.1.4-2).  After any
+history admitted by `okRun`, an accepted CONNECT admitted by `okEv` that carries
+the (non-empty) client identifier of the live connection `c0` emits exactly what
+the end of `c0` without DISCONNECT emits (`.close c0`), followed by its own
+CONNACK - in the model and in the reference broker alike.  So everything
+C09_refines_reference says about `.close c0` holds for the take-over: the close
+of `c0`, then the will of `c0`'s own CONNECT (if it declared one) fanned out in
+the state in which `c0`'s subscriptions are gone and the new connection is not
+there yet, then the CONNACK. -/
+theorem C09_take_over_is_an_end (es : List Ev) (hok : okRun {} es = true) (c c0 : Nat) (req : Connect) (a : Bool)
+    (he : okEv (run {} es).1 (.first c (.connect req) a) = true) (hacc : accepts (.connect req) a = true)
+    (σ : Sess) (hσ : liveSess (run {} es).1 c0 = some σ) (hcid : σ.cid = req.clientId) (hne : req.clientId ≠ []) :
+    (run {} es).1.alive c0 = true ∧
+    ∃ sp, (step (run {} es).1 (.first c (.connect req) a)).2 =
+        (step (run {} es).1 (.close c0)).2 ++ [.send c (.connack sp 0)] ∧
+      (Mqtt.Spec.Broker.step (specRun {} es).1 (.first c (.connect req) a)).2 =
+        (Mqtt.Spec.Broker.step (specRun {} es).1 (.close c0)).2 ++ [.send c (.connack sp 0)] := by
+  have hR := Mqtt.Proofs.BrokerRefine.reach es hok
+  refine ⟨Mqtt.Proofs.BrokerRefine.liveSess_alive hσ, ?_⟩
+  obtain ⟨_, c1, c2, _⟩ := Mqtt.Proofs.BrokerRefine.connect_refines hR c req a he hacc
+  have hdead : (run {} es).1.alive c = false := by
+    simp only [okEv, Bool.and_eq_true, decide_eq_true_eq, Bool.not_eq_true'] at he
+    exact he.1.2
+  obtain ⟨_, _, hfree, hto⟩ := Mqtt.Proofs.BrokerRefine.takeOver_refines hR c req a hacc hdead
+  have heff : effCid c req = req.clientId := by
+    unfold effCid
+    cases hc : req.clientId with
+    | nil => exact absurd hc hne
+    | cons x xs => rfl
+  rcases hto with ⟨h0, _⟩ | ⟨c0', σ', fs, fo, hσ', hcid', _, t1, t2, _⟩
+  · rw [h0] at hfree
+    exact absurd (hcid.trans heff.symm) (hfree c0 σ hσ)
+  · have : c0' = c0 := hR.cidUniq c0' c0 σ' σ hσ' hσ (hcid'.trans hcid.symm)
+    subst this
+    refine ⟨(Mqtt.Proofs.BrokerRefine.specPrior
+      (Mqtt.Spec.Broker.takeOver (specRun {} es).1 (.connect req) a).1 c req).isSome, ?_, ?_⟩
+    · rw [c1, t1]; rfl
+    · rw [Mqtt.Proofs.BrokerRefine.spec_step_eq, c2, t2]; rfl
+
 end Mqtt.Properties.C09
